@@ -235,6 +235,7 @@ def generate(rng, seed, size):
     cases = []
     probes = []
     for e in enums:
+        out.append("// @case-begin %s\n" % e["name"])
         decl, inst_fmt = GEN_DECL[e["generics"]]
         if not robust:
             for l in noise.enum_noise(rng):
@@ -261,7 +262,7 @@ def generate(rng, seed, size):
             desc = describe(e) + ("" if not inst else " as %s" % ty)
             cases.append('    Case { name: "%s_%s", n: %d, desc: "%s", make: || mk::<%s>(%s()) },\n'
                          % (e["name"], tag, e["n"], desc.replace('"', '\\"'), ty, fn))
-        out.append("\n")
+        out.append("// @case-end %s\n\n" % e["name"])
     # the same enum and variant names once more in a nested module, disabled flags flipped, unit variants only
     if not minimal:
         out.append("pub mod dup {\n    use super::*;\n")
